@@ -300,6 +300,8 @@ def x_schedule(ctx, case):
     if ab and ab[0] == "wrap" and ab[1] >= len(case["workers"]):
         eff = dict(case, abort=None)
     check(ctx, eff, sch, log, runlog, created, exc, yielded, shim, target, detail)
+    if not hasattr(ctx, "interleavings"):
+        ctx.interleavings = set()
     ctx.interleavings.add(hash(tuple(sch.trace)))
     x_schedule.last = sch
     return len(case["workers"]) >= 2
